@@ -79,6 +79,7 @@ def c03(work, tier, seed, replay):
         del os.environ["VH_CASES"]
         del os.environ["VH_RACE_BIN"]
     cut_short = any("timeout (no result" in l for l in open(tr))     # the generator ends its run at the first call that hangs
+    cut_short = cut_short or "library-panic-while-building-inputs" in stats["classes"]   # ... or when the library panics while inputs are built
     if not cut_short and stats["classes"].get("tlc-conversation") != len(cases):
         raise Infra("replayed %s of %d TLC conversations" % (stats["classes"].get("tlc-conversation"), len(cases)))
     viol, tstates, n = validate(work, "Trace_Crash", tr, stats, procs=6 if quick else 12)
@@ -130,8 +131,11 @@ def c09(work, tier, seed, replay):
         desc = ("%s: input of %d bytes (nesting depth %d) -> %s KiB allocated, %s KiB retained%s; bounds %d / %d KiB"
                 % (e["family"], e["n"], e["depth"], e["allocKiB"], e["retainedKiB"], " (killed after 25 s)" if e["killed"] else "",
                    256 * e["n"] // 1024 + 8 * e["n"] * e["depth"] // 1024 + 64, 64 * e["n"] // 1024 + 16))
-        if key in findings:
+        if key in findings and i not in common.tlc_trace.worse:
             known.setdefault(key, desc)
+        elif key in findings:
+            viol.append((desc + " - beyond the amplification that is the known finding for this family (names: n^2/8 octets retained once, "
+                         "allocated about twice)", [lines[i - 1]]))
         else:
             viol.append((desc, [lines[i - 1]]))
     meas = [json.loads(l) for l in lines]
